@@ -325,8 +325,17 @@ func (vr *variableResolver) resolve(ctx *ExecutionContext) (*Value, error) {
 					switch current.Kind() {
 					case reflect.Struct:
 						current = current.FieldByName(part.s)
+						if current.IsValid() && !current.CanInterface() {
+							// Unexported fields are not accessible (like a missing field)
+							return AsValue(nil), nil
+						}
 					case reflect.Map:
-						current = current.MapIndex(reflect.ValueOf(part.s))
+						key := reflect.ValueOf(part.s)
+						if !key.Type().AssignableTo(current.Type().Key()) {
+							// The map can't have such a key (like a missing key)
+							return AsValue(nil), nil
+						}
+						current = current.MapIndex(key)
 					default:
 						return nil, fmt.Errorf("can't access a field by name on type %s (variable %s)",
 							current.Kind().String(), vr.String())
@@ -354,6 +363,10 @@ func (vr *variableResolver) resolve(ctx *ExecutionContext) (*Value, error) {
 							return nil, err
 						}
 						current = current.FieldByName(sv.String())
+						if current.IsValid() && !current.CanInterface() {
+							// Unexported fields are not accessible (like a missing field)
+							return AsValue(nil), nil
+						}
 					case reflect.Map:
 						sv, err := part.subscript.Evaluate(ctx)
 						if err != nil {
